@@ -176,6 +176,7 @@ func checkConnectives(r *Run, prog *Program, a *Anchors, pfx string) {
 		}
 	}
 
+	delegates := dispatchDelegates(prog, a)
 	for _, sp := range connSpecs {
 		nt := prog.grammarType(sp.typeName)
 		if nt == nil {
@@ -229,7 +230,13 @@ func checkConnectives(r *Run, prog *Program, a *Anchors, pfx string) {
 				if ev.Callee == nil || len(ev.Args) == 0 || !prog.InModule(ev.Callee) || !isBoolErr(ev.Callee.Signature) {
 					return nil
 				}
-				f, ok := childField(ev.Args[0], pNode, ptrT)
+				f, ok := "", false
+				for _, x := range ev.Args {
+					if ff, isChild := childField(x, pNode, ptrT); isChild {
+						f, ok = ff, true
+						break
+					}
+				}
 				if !ok {
 					return nil
 				}
@@ -272,7 +279,13 @@ func checkConnectives(r *Run, prog *Program, a *Anchors, pfx string) {
 					if ev.Instr == nil || ev.Callee == nil || len(ev.Args) == 0 || ev.Inlined {
 						continue
 					}
-					f, ok := childField(ev.Args[0], pNode, ptrT)
+					f, ok := "", false
+					for _, x := range ev.Args {
+						if ff, isChild := childField(x, pNode, ptrT); isChild {
+							f, ok = ff, true
+							break
+						}
+					}
 					if !ok {
 						continue
 					}
@@ -282,13 +295,13 @@ func checkConnectives(r *Run, prog *Program, a *Anchors, pfx string) {
 							order = append(order, f)
 						}
 					}
-					if ev.Callee != fn {
+					if ev.Callee != fn && !delegates[ev.Callee] {
 						argProblems = append(argProblems, fmt.Sprintf("operand %s is evaluated through %s, not through the dispatcher", f, ev.Callee.Name()))
 					}
-					if len(ev.Args) < 3 || ev.Args[1].Key() != pDatum.Key() {
+					if !argsCarry(ev.Args, pDatum) {
 						argProblems = append(argProblems, "operand "+f+" is not evaluated against the same datum")
 					}
-					if len(ev.Args) < 3 || ev.Args[2].Key() != pOpt.Key() {
+					if !argsCarry(ev.Args, pOpt) {
 						argProblems = append(argProblems, "operand "+f+" is not given the caller's options")
 					}
 				}
